@@ -809,6 +809,65 @@ func mapTypedNames(files []*ast.File) map[string]bool {
 	return names
 }
 
+// mechTrace: the error-flag mechanism of one piece of code, in source order: sub-evaluations (E), polls of
+// utils.HadRuntimeError (P, with the condition when it is not the bare flag), reports (R + start of the
+// message), calls of the callee (CALL), output (OUT), scope operations (ENV), operator helpers (OP), stores
+// into a cell (STORE), loops (LOOP) and returns of a non-None signal are left out (see gen_arm_signals).
+func mechTrace(body []ast.Stmt) []string {
+	var tr []string
+	for _, s := range body {
+		ast.Inspect(s, func(n ast.Node) bool {
+			switch x := n.(type) {
+			case *ast.IfStmt:
+				if strings.Contains(exprStr(x.Cond), "HadRuntimeError") {
+					c := exprStr(x.Cond)
+					if c == "utils.HadRuntimeError" {
+						tr = append(tr, "P")
+					} else {
+						tr = append(tr, "P:"+c)
+					}
+				}
+			case *ast.ForStmt, *ast.RangeStmt:
+				tr = append(tr, "LOOP")
+			case *ast.AssignStmt:
+				if len(x.Lhs) == 1 {
+					if _, ok := x.Lhs[0].(*ast.IndexExpr); ok {
+						tr = append(tr, "STORE:"+exprStr(x.Lhs[0]))
+					}
+				}
+			case *ast.CallExpr:
+				fn := exprStr(x.Fun)
+				switch {
+				case fn == "i.eval" && len(x.Args) >= 2:
+					tr = append(tr, "E:"+exprStr(x.Args[0]))
+				case fn == "utils.RuntimeError" && len(x.Args) == 2:
+					msg := ""
+					ast.Inspect(x.Args[1], func(m ast.Node) bool {
+						if b, ok := m.(*ast.BasicLit); ok && msg == "" && b.Kind == token.STRING {
+							msg, _ = strconv.Unquote(b.Value)
+						}
+						return true
+					})
+					if len(msg) > 24 {
+						msg = msg[:24]
+					}
+					tr = append(tr, "R:"+msg)
+				case fn == "function.Call":
+					tr = append(tr, "CALL")
+				case fn == "fmt.Println":
+					tr = append(tr, "OUT")
+				case fn == "evaluateBinary" || fn == "evaluateUnary":
+					tr = append(tr, "OP:"+fn)
+				case strings.HasSuffix(fn, ".Define") || strings.HasSuffix(fn, ".Assign") || strings.HasSuffix(fn, ".Get") || strings.HasSuffix(fn, ".GetInCurrentScope"):
+					tr = append(tr, "ENV:"+selName(x.Fun))
+				}
+			}
+			return true
+		})
+	}
+	return tr
+}
+
 func interpreterTables() {
 	rels := []string{"interpreter/interpreter.go", "interpreter/function.go", "interpreter/nativeFunction.go",
 		"interpreter/nativeFunctionArray.go", "interpreter/nativeFunctionObject.go", "interpreter/nativeFunctionMath.go",
@@ -897,6 +956,7 @@ func interpreterTables() {
 		order  []string
 		sigs   []string
 		scopes []string
+		trace  []string
 	}
 	var infos []armInfo
 	entryPoll := false
@@ -916,6 +976,7 @@ func interpreterTables() {
 					name := selName(cc.List[0])
 					arms = append(arms, name)
 					info := armInfo{name: name}
+					info.trace = mechTrace(cc.Body)
 					seenSig := map[string]bool{}
 					for _, s := range cc.Body {
 						ast.Inspect(s, func(n ast.Node) bool {
@@ -999,6 +1060,35 @@ func interpreterTables() {
 	emit("\n].\n")
 	emit("Definition gen_entry_poll : bool := %s.\n", coqBool(entryPoll))
 	emit("Definition gen_call_poll : bool := %s.\n", coqBool(callPoll))
+	// the flag mechanism per arm and in the helpers around eval (FlagEval.v transcribes exactly this)
+	emit("Definition gen_arm_trace : list (string * list string) := [\n")
+	for _, in := range infos {
+		emit("  (%s, %s);\n", coqStr(in.name), coqStrList(in.trace))
+	}
+	extra := []struct{ label, file, fn string }{{"Interpret", "", "Interpreter.Interpret"}, {"evaluateBinary:entry", "", "evaluateBinary"}, {"evaluateUnary:entry", "", "evaluateUnary"}}
+	for _, ex := range extra {
+		var tr []string
+		if fd, ok := fds[ex.fn]; ok {
+			if strings.HasSuffix(ex.label, ":entry") {
+				tr = mechTrace(fd.Body.List[:1])
+			} else {
+				tr = mechTrace(fd.Body.List)
+			}
+		}
+		emit("  (%s, %s);\n", coqStr(ex.label), coqStrList(tr))
+	}
+	{
+		var tr []string
+		if fd, ok := funcDecls(files[1])["Function.Call"]; ok {
+			tr = mechTrace(fd.Body.List)
+		}
+		emit("  (%s, %s);\n", coqStr("Function.Call"), coqStrList(tr))
+		tr = nil
+		if fd, ok := funcDecls(files[9])["Environment.Assign"]; ok {
+			tr = mechTrace(fd.Body.List)
+		}
+		emit("  (%s, %s)\n].\n", coqStr("Environment.Assign"), coqStrList(tr))
+	}
 
 	// Function.Call: scope parent and signals
 	ffds := funcDecls(files[1])
